@@ -463,6 +463,29 @@ class _ConstantOnly(ValueError):
     pass
 
 
+_PY_SCALARS = (bool, int, float)
+
+
+def _resolve_weak_scalars(input_vars: Sequence[ArrayLike]) -> Tuple[ArrayLike, ...]:
+    """Python scalars are 'weakly typed' under NumPy's promotion rules (NEP 50):
+    next to arrays they take on the arrays' dtype, e.g. ``float32_array * 2.0`` is
+    float32. Here they are cast to the 0-d array NumPy would treat them as, so that
+    an operation on tensors promotes exactly like the one on the underlying arrays."""
+    others = [
+        v.dtype if isinstance(v, (Tensor, np.ndarray, np.generic)) else np.asarray(v).dtype
+        for v in input_vars
+        if type(v) not in _PY_SCALARS
+    ]
+    if not others:
+        return tuple(input_vars)
+    return tuple(
+        np.asarray(v, dtype=np.result_type(*others, v))
+        if type(v) in _PY_SCALARS
+        else v
+        for v in input_vars
+    )
+
+
 def _is_view_descendant(base: "Tensor", t: "Tensor") -> bool:
     """Returns True if `t` is reachable from `base` through tracked view-children."""
     return any(
@@ -1093,6 +1116,9 @@ class Tensor:
                 return out
 
         _uniques_bases_then_arrs = ()
+
+        if any(type(var) in _PY_SCALARS for var in input_vars):
+            input_vars = _resolve_weak_scalars(input_vars)
 
         tensor_vars = tuple(
             cls(var, constant=True, copy=False) if not isinstance(var, Tensor) else var
